@@ -446,6 +446,14 @@ class StereoCondensedReactionGraph(StereoMolGraph, CondensedReactionGraph):
                     for change, stereo in stereo_change.items()
                 }
                 enantiomer.set_atom_stereo_change(**stereo_change_inverted)
+        for bond, change_dict in self._bond_stereo_change.items():
+            enantiomer._bond_stereo_change[bond] = ChangeDict(
+                {
+                    change: stereo.invert()
+                    for change, stereo in change_dict.items()
+                    if stereo is not None
+                }
+            )
         return enantiomer
 
     def _to_rdmol(
